@@ -729,37 +729,86 @@ func (c *Check) nmLookup() {
 	} else {
 		c.bad("C13-R5", "nm:empty", p.relFile(f.Pos()), "nm lookup does not start with the empty-table test: a.m[0] panics for a binary without symbols")
 	}
-	// data symbol: addr >= address + size, evaluated only for data symbols
+	// data symbol: a data symbol matches only within [address, address+size).  Assuming the
+	// selected symbol is a data symbol and the address lies at or beyond its end, no return
+	// that reports a symbol is reachable (so the size test cannot be bypassed by another
+	// condition).
 	okData := false
 	for _, h := range withHelpers(f, 2) {
-		notData := reachUnder(h, func(cond ssa.Value) int {
-			if call, ok := cond.(*ssa.Call); ok && call.Call.StaticCallee() != nil && call.Call.StaticCallee().Name() == "isData" {
-				return -1
-			}
-			return 0
-		})
-		hasIsData := false
+		var recv ssa.Value
 		for _, b := range h.Blocks {
 			for _, ins := range b.Instrs {
-				if call, ok := ins.(*ssa.Call); ok && call.Call.StaticCallee() != nil && call.Call.StaticCallee().Name() == "isData" {
-					hasIsData = true
+				if call, ok := ins.(*ssa.Call); ok && call.Call.StaticCallee() != nil && call.Call.StaticCallee().Name() == "isData" && len(call.Call.Args) > 0 {
+					recv = call.Call.Args[0]
 				}
 			}
 		}
-		for _, b := range h.Blocks {
-			for _, ins := range b.Instrs {
-				cmp, ok := ins.(*ssa.BinOp)
-				if !ok || (cmp.Op != token.GEQ && cmp.Op != token.LSS) {
-					continue
+		if recv == nil {
+			continue
+		}
+		sameSymbol := func(x ssa.Value) bool {
+			strip := func(v ssa.Value) ssa.Value {
+				if ld, ok := v.(*ssa.UnOp); ok && ld.Op == token.MUL {
+					return ld.X
 				}
-				add, ok := cmp.Y.(*ssa.BinOp)
-				if !ok || add.Op != token.ADD {
-					continue
+				return v
+			}
+			x, y := strip(x), strip(recv)
+			if x == y {
+				return true
+			}
+			ix, ok1 := x.(*ssa.IndexAddr)
+			iy, ok2 := y.(*ssa.IndexAddr)
+			return ok1 && ok2 && ix.Index == iy.Index
+		}
+		endOf := func(v ssa.Value) bool { // address + size of the selected symbol
+			add, ok := v.(*ssa.BinOp)
+			if !ok || add.Op != token.ADD {
+				return false
+			}
+			la, ok1 := add.X.(*ssa.UnOp)
+			lb, ok2 := add.Y.(*ssa.UnOp)
+			if !ok1 || !ok2 || !isFieldLoad(add.X, "binutils.symbolInfo", "address") || !isFieldLoad(add.Y, "binutils.symbolInfo", "size") {
+				return false
+			}
+			fa, okA := la.X.(*ssa.FieldAddr)
+			fb, okB := lb.X.(*ssa.FieldAddr)
+			return okA && okB && sameSymbol(fa.X) && sameSymbol(fb.X)
+		}
+		sawEnd := false
+		reach := reachUnder(h, func(cond ssa.Value) int {
+			switch x := cond.(type) {
+			case *ssa.Call:
+				if x.Call.StaticCallee() != nil && x.Call.StaticCallee().Name() == "isData" {
+					return 1
 				}
-				if isFieldLoad(add.X, "binutils.symbolInfo", "address") && isFieldLoad(add.Y, "binutils.symbolInfo", "size") && hasIsData && !notData[b] {
-					okData = true
+			case *ssa.BinOp:
+				if endOf(x.Y) {
+					sawEnd = true
+					switch x.Op {
+					case token.GEQ:
+						return 1
+					case token.LSS:
+						return -1
+					}
 				}
 			}
+			return 0
+		})
+		reported := false
+		for _, b := range h.Blocks {
+			ret, ok := b.Instrs[len(b.Instrs)-1].(*ssa.Return)
+			if !ok || len(ret.Results) == 0 || !reach[b] {
+				continue
+			}
+			// a return dominated by the isData test that hands back a symbol
+			if k, isConst := ret.Results[0].(*ssa.Const); isConst && k.IsNil() {
+				continue
+			}
+			reported = true
+		}
+		if sawEnd && !reported {
+			okData = true
 		}
 	}
 	if okData {
